@@ -48,7 +48,7 @@ extern int g_c04_dummy;
 #define C04_ESCAPE_GHOSTS g_p0, g_p1, C04_C
 
 #define C04_ESCAPE_LOOP_INV(ret, s, i) \
-  ((i) <= (s)->size && g_base + (i) <= (ret)->size && (ret)->size <= g_base + 6 * (i) && \
+  ((i) <= (s)->size && g_base + (i) <= (ret)->size && (ret)->size <= g_base + ((i) << 3) && (ret)->size <= (ret)->cap && \
    (g_ek < (i) ==> (g_base + g_ek <= g_p0 && g_p0 < (ret)->size && g_p0 + g_gl <= (ret)->size && (g_ek != 0 || g_p0 == g_base) && \
                     (g_ek + 1 == (i) ? (ret)->size == g_p0 + g_gl : g_p1 == g_p0 + g_gl))) && \
    (g_ek < (i) ==> C04_BYTES_AT_(ret, g_p0, C04_G)))
@@ -69,10 +69,10 @@ __CPROVER_requires(__CPROVER_is_fresh(s, sizeof(vstr)))
 __CPROVER_requires(s->size <= C04_SMAX && s->size <= s->cap && s->cap <= VSTR_MAXCAP)
 __CPROVER_requires(__CPROVER_is_fresh(s->data, s->cap))
 __CPROVER_requires(__CPROVER_is_fresh(ret, sizeof(vstr)))
-__CPROVER_requires(ret->cap <= VSTR_MAXCAP && ret->size <= 8 && ret->size <= ret->cap && ret->size == g_base && 6 * s->size <= ret->cap - ret->size)
+__CPROVER_requires(ret->cap <= VSTR_MAXCAP && ret->size <= 8 && ret->size <= ret->cap && ret->size == g_base && (s->size << 3) <= ret->cap - ret->size)   /* room for 8 bytes per character (at most 6 are used); shifts instead of products keep the bounds linear */
 __CPROVER_requires(__CPROVER_is_fresh(ret->data, ret->cap))
 __CPROVER_requires(mode >= 0 && mode <= 2)
-__CPROVER_ensures(g_base + s->size <= ret->size && ret->size <= g_base + 6 * s->size)
+__CPROVER_ensures(g_base + s->size <= ret->size && ret->size <= g_base + (s->size << 3))
 __CPROVER_ensures(g_ek < s->size ==> (g_ech == s->data[g_ek] && C04_GROUP_IS_(C04_G, g_ech, mode)))
 __CPROVER_ensures(g_ek < s->size ==> (g_base + g_ek <= g_p0 && g_p0 < ret->size && g_p1 == g_p0 + g_gl && g_p1 <= ret->size))
 __CPROVER_ensures(g_ek < s->size ==> C04_BYTES_AT_(ret, g_p0, C04_G))
